@@ -364,8 +364,19 @@ def judge_xml(sess, xml, made_up=()):
         out.status = "canonicalisation-changed-intent-attributes"
         return out
     standing_changed = can.summary() != an.summary()
+    nesting_by_clean_up = False
     if standing_changed:
         out.notes.append("clean_up_changes_intent_standing")
+        # One change of standing is the tolerated behaviour of DESIGN 6/C19 reached through the clean-up: a wrapper that renders nothing
+        # (mpadded, mstyle, one-child mrow) is dissolved and its arg moves onto a child that carries an illegal intent, so the outer value
+        # now references an element with an illegal value directly ('nests illegally').  Written that way in the input
+        # (<mover intent='f($b)'><mn arg='b' intent=''>..) the outer attribute counts as illegal too and both are ignored; the same
+        # expectation cannot be demanded from the input's standing, so only the standing-independent relations are judged.
+        diffs = [(x, y) for x, y in zip(an.summary(), can.summary()) if x != y]
+        nests = ((G.ILLEGAL, "nests-illegal"), (G.DISPUTED, "nests-disputed"))
+        nesting_by_clean_up = (any(x[1:3] != y[1:3] for x, y in diffs)
+                               and all(x[1:3] == y[1:3] or (x[1] == G.LEGAL and y[1:3] in nests) for x, y in diffs)
+                               and any(x[1] != G.LEGAL for x in an.summary()))
     removed_values = [e.get("intent").strip() for e in an.remove]
     drop = set()
     for e in can.attrs:
@@ -406,6 +417,10 @@ def judge_xml(sess, xml, made_up=()):
             bad("attr-lost", "intent attributes on the live tree %s: %s, expected %s" % (name, got, want),
                 "%s:lost=%s" % (name.replace(" ", "-"), "+".join(sorted(set(value_shape(v) for v in lost))) or "none(changed)"))
     # -- class specific ------------------------------------------------------------------------------------------
+    if nesting_by_clean_up:
+        out.notes.append("clean_up_puts_illegal_value_on_referenced_element")
+        out.status = "judged-standing-independent-relations-only"
+        return out
     ref_ok = REF["r"] == "ok"
     if not ref_ok:
         out.notes.append("reference_speech_failed")
